@@ -101,6 +101,25 @@ theorem checkDH_negative_refused (isPrime : Int → Bool)
   have := ((horacle p).mp this).1
   omega
 
+/-- For the **production prime** of Telegram's servers no oracle is needed for the structural part:
+its size and residues are computed by the kernel, so `CheckGP` accepts exactly g ∈ {3, 4, 7}
+(Telegram sends g = 3), and `CheckDH` accepts iff additionally the two primality tests succeed. -/
+theorem production_prime_generators (g : Int) :
+    checkGP g (productionPrime : Int) = .ok ↔ g = 3 ∨ g = 4 ∨ g = 7 := by
+  rw [checkGP_ok_iff _ _ (Int.natCast_nonneg _)]
+  obtain ⟨h8, h3, h5, h24, h7⟩ := productionPrime_residues
+  omega
+
+theorem production_prime_checkDH (isPrime : Int → Bool) (g : Int) :
+    checkDH isPrime g (productionPrime : Int) = .ok ↔
+      (g = 3 ∨ g = 4 ∨ g = 7) ∧ isPrime (productionPrime : Int) = true ∧
+        isPrime (Int.tdiv ((productionPrime : Int) - 1) 2) = true := by
+  rw [checkDH_iff, production_prime_generators, Int.natAbs_natCast]
+  have := productionPrime_bits
+  constructor
+  · rintro ⟨_, h⟩; exact h
+  · intro h; exact ⟨this, h⟩
+
 /-! ### CheckDHParams -/
 
 /-- `CheckDHParams` accepts exactly the values strictly inside `(1, p−1)` (g, g_a, g_b) and strictly
@@ -153,6 +172,28 @@ theorem decompose_semiprime (p1 p2 : Nat) (hp1 : p1.Prime) (hp2 : p2.Prime) (hle
     (tape : List Nat) (p q : Nat) (h : decomposePQ (p1 * p2) tape = .ok (p, q)) : p = p1 ∧ q = p2 := by
   obtain ⟨hmul, hgt, hpq⟩ := decompose_sound _ tape p q h
   exact semiprime_factors p1 p2 p q hp1 hp2 hle hmul hgt hpq
+
+/-! ### Inputs outside the specification (observations, see notes/C13.md) -/
+
+/-- On a **prime** input the loop never returns a factorisation, whatever the random source gives:
+every run ends with the exhaustion of the random source — with `crypto/rand` it never ends.  (The
+client calls `DecomposePQ` on the server-supplied `pq` after checking only `pq ≤ 2^63`.) -/
+theorem decompose_prime_never_returns (n : Nat) (hn : n.Prime) (tape : List Nat) (p q : Nat) :
+    decomposePQ n tape ≠ .ok (p, q) := by
+  intro h
+  obtain ⟨hmul, hgt, hpq⟩ := decompose_sound n tape p q h
+  exact prime_no_factors n p q hn hmul hgt hpq
+
+/-- `pq = 0` and `pq = 1` never return a result either: with at least two random words the Go code
+panics (division by zero in `v.Mod(v, what)` resp. `x.Mod(x, whatNext)`), modelled as `.panic`. -/
+theorem decompose_zero_one_panics (n : Nat) (hn : n ≤ 1) (r1 r2 : Nat) (rest : List Nat) :
+    decomposePQ n (r1 :: r2 :: rest) = .error .panic := by
+  have h1 : Facts.C13.pqValue1 = 1 := pq_constants.2.2.2.2.2
+  unfold decomposePQ pqLoop
+  have hc : ¬ (Facts.C13.pqValue1 < 0 ∧ 0 < n) := by omega
+  rw [if_neg hc, h1]
+  have : n = 0 ∨ n = 1 := by omega
+  simp [this]
 
 /-- Non-vacuity: the model factors 15 with the two-word tape `[1, 1]` (v = 3, x = 2, x' = 7,
 gcd(7 − 2, 15) = 5, result swapped into ascending order). -/
